@@ -506,4 +506,16 @@ theorem recpBody_writes (s : Sys) (l pkt : Ticket) (i w : Nat)
         subst this; simp at h; exact h
   | n + 5 => simp [recpBody, writes] at h
 
+/-- handling a canceled ticket (any state but the transient "created"): both step functions return "canceled" and
+spawn the finalization, for ANY local ticket -/
+theorem C16_cancel_spawn (s : Sys) (cur : Nat) (l pkt : Ticket)
+    (hc : pkt.state = sCanceled) (hcur : cur ≠ sCreated) :
+    (stepProvider (envP s) cur (some pkt) (some l)).effs = [.spawnFin] ∧
+    (stepProvider (envP s) cur (some pkt) (some l)).res = .ok sCanceled (some pkt) (some l) ∧
+    (stepRecipient (envR s) cur (some l) (some pkt)).effs = [.spawnFin] ∧
+    (stepRecipient (envR s) cur (some l) (some pkt)).res = .ok sCanceled (some l) (some pkt) := by
+  have hcur' : ¬ cur = 0 := hcur
+  simp only [stepProvider, stepRecipient, prov_select, recp_select, provSel, recpSel, hc]
+  simp [hcur', provBody, recpBody, sCanceled]
+
 end Pool.C16
